@@ -25,14 +25,15 @@ theorem find_map_upd {α : Type} (k : α → Nat) (l : List α) (t : α) (i : Na
   | cons x xs ih =>
     simp only [List.map_cons, List.find?_cons]
     by_cases hx : k x = k t
-    · simp only [hx, if_true]
-      by_cases hi : k t = i
-      · simp [hi]
-      · simp only [hi, decide_false]; exact ih
-    · simp only [hx, if_false]
-      by_cases hi : k x = i
-      · simp [hi, hx]
-      · simp only [hi, decide_false]; exact ih
+    · by_cases hi : k t = i
+      · have hxi : k x = i := hx.trans hi
+        simp [hx, hi]
+      · have hxi : ¬ k x = i := fun h => hi (hx.symm.trans h)
+        simp only [hx, if_true, hi, decide_false]; exact ih
+    · by_cases hi : k x = i
+      · have hit : ¬ i = k t := fun h => hx (hi.trans h)
+        simp [hi, hit]
+      · simp only [hx, if_false, hi, decide_false]; exact ih
 
 theorem getT_setT (w : World) (t : Tgt) (i : Nat) :
     getT (setT w t) i = (getT w i).map (fun x => if x.id = t.id then t else x) := by
@@ -171,7 +172,12 @@ def PhiR (w : World) (r : Req) : Prop := PhiRp w r.phase
 /-- the rotation is a sub-list of the targets -/
 def RotInv (w : World) : Prop := ∀ l ∈ w.lbs, ∀ tid ∈ l.healthy, tid ∈ l.targets
 
+/-- identifiers in use are below the id supply -/
+def Fresh (w : World) : Prop :=
+  (∀ l ∈ w.lbs, l.id < w.next) ∧ (∀ t ∈ w.tgts, t.id < w.next) ∧ (∀ t ∈ w.tgts, getT w t.id = some t)
+
 structure J (w : World) : Prop where
+  fresh : Fresh w
   objs : ∀ o ∈ w.objs, PhiO w o
   cmds : ∀ c ∈ w.cmds, PhiC w c
   reqs : ∀ r ∈ w.reqs, PhiR w r
@@ -194,16 +200,17 @@ theorem PhiRp.mono {w w' : World} {p : RPhase} (h : PhiRp w p) (e : Ext w w') : 
 /-- the effect of one step on the three lists -/
 structure Pres (w w' : World) : Prop where
   ext : Ext w w'
+  fresh : Fresh w → Fresh w'
   objs : ∀ o ∈ w'.objs, o ∈ w.objs ∨ PhiO w' o
   cmds : ∀ c ∈ w'.cmds, (∃ c0 ∈ w.cmds, c0.phase = c.phase) ∨ PhiC w' c
   reqs : ∀ r ∈ w'.reqs, (∃ r0 ∈ w.reqs, r0.phase = r.phase) ∨ PhiR w' r
   rot : RotInv w → RotInv w'
 
 theorem Pres.refl (w : World) : Pres w w :=
-  ⟨Ext.refl w, fun _ h => Or.inl h, fun c h => Or.inl ⟨c, h, rfl⟩, fun r h => Or.inl ⟨r, h, rfl⟩, id⟩
+  ⟨Ext.refl w, id, fun _ h => Or.inl h, fun c h => Or.inl ⟨c, h, rfl⟩, fun r h => Or.inl ⟨r, h, rfl⟩, id⟩
 
 theorem Pres.trans {a b c : World} (h1 : Pres a b) (h2 : Pres b c) : Pres a c := by
-  refine ⟨h1.ext.trans h2.ext, fun o ho => ?_, fun x hx => ?_, fun r hr => ?_, fun h => h2.rot (h1.rot h)⟩
+  refine ⟨h1.ext.trans h2.ext, fun h => h2.fresh (h1.fresh h), fun o ho => ?_, fun x hx => ?_, fun r hr => ?_, fun h => h2.rot (h1.rot h)⟩
   · rcases h2.objs o ho with h | h
     · rcases h1.objs o h with h' | h'
       · exact Or.inl h'
@@ -225,7 +232,7 @@ theorem Pres.trans {a b c : World} (h1 : Pres a b) (h2 : Pres b c) : Pres a c :=
     · exact Or.inr h
 
 theorem J.step {w w' : World} (j : J w) (p : Pres w w') : J w' := by
-  refine ⟨fun o ho => ?_, fun c hc => ?_, fun r hr => ?_, p.rot j.rot⟩
+  refine ⟨p.fresh j.fresh, fun o ho => ?_, fun c hc => ?_, fun r hr => ?_, p.rot j.rot⟩
   · rcases p.objs o ho with h | h
     · exact (j.objs o h).mono p.ext
     · exact h
@@ -239,10 +246,948 @@ theorem J.step {w w' : World} (j : J w) (p : Pres w w') : J w' := by
     · exact h
 
 /-- a step that touches neither targets, load balancers, objects, commands nor requests -/
+theorem Fresh.of_eq {w w' : World} (ht : w'.tgts = w.tgts) (hl : w'.lbs = w.lbs) (hn : w.next ≤ w'.next)
+    (h : Fresh w) : Fresh w' := by
+  unfold Fresh getT at *
+  rw [ht, hl]
+  exact ⟨fun l hm => Nat.lt_of_lt_of_le (h.1 l hm) hn, fun t hm => Nat.lt_of_lt_of_le (h.2.1 t hm) hn, h.2.2⟩
+
 theorem Pres.of_eq {w w' : World} (ht : w'.tgts = w.tgts) (hl : w'.lbs = w.lbs) (ho : w'.objs = w.objs)
-    (hc : w'.cmds = w.cmds) (hr : w'.reqs = w.reqs) : Pres w w' := by
-  refine ⟨Ext.of_eq ht hl, fun o h => Or.inl (ho ▸ h), fun c h => Or.inl ⟨c, hc ▸ h, rfl⟩,
+    (hc : w'.cmds = w.cmds) (hr : w'.reqs = w.reqs) (hn : w.next ≤ w'.next := by exact Nat.le_refl _) : Pres w w' := by
+  refine ⟨Ext.of_eq ht hl, Fresh.of_eq ht hl hn, fun o h => Or.inl (ho ▸ h), fun c h => Or.inl ⟨c, hc ▸ h, rfl⟩,
     fun r h => Or.inl ⟨r, hr ▸ h, rfl⟩, fun h => ?_⟩
   unfold RotInv at *; rw [hl]; exact h
+
+/-! ### primitives -/
+
+theorem mem_map_upd {α : Type} (k : α → Nat) {l : List α} {t x : α}
+    (h : x ∈ l.map fun y => if k y = k t then t else y) : x ∈ l ∨ (x = t ∧ ∃ y ∈ l, k y = k t) := by
+  simp only [List.mem_map] at h
+  obtain ⟨y, hy, rfl⟩ := h
+  by_cases hk : k y = k t
+  · rw [if_pos hk]; exact Or.inr ⟨rfl, y, hy, hk⟩
+  · simp [hk, hy]
+
+/-- a step that keeps targets and load balancers, given what it does to the three lists -/
+theorem Pres.lists {w w' : World} (ht : w'.tgts = w.tgts) (hl : w'.lbs = w.lbs)
+    (ho : ∀ o ∈ w'.objs, o ∈ w.objs ∨ PhiO w o)
+    (hc : ∀ c ∈ w'.cmds, (∃ c0 ∈ w.cmds, c0.phase = c.phase) ∨ PhiCp w c.phase)
+    (hr : ∀ r ∈ w'.reqs, (∃ r0 ∈ w.reqs, r0.phase = r.phase) ∨ PhiRp w r.phase)
+    (hn : w.next ≤ w'.next := by exact Nat.le_refl _) : Pres w w' := by
+  have e := Ext.of_eq ht hl
+  refine ⟨e, Fresh.of_eq ht hl hn, fun o h => ?_, fun c h => ?_, fun r h => ?_, fun h => ?_⟩
+  · rcases ho o h with h' | h'
+    · exact Or.inl h'
+    · exact Or.inr (h'.mono e)
+  · rcases hc c h with h' | h'
+    · exact Or.inl h'
+    · exact Or.inr (h'.mono e)
+  · rcases hr r h with h' | h'
+    · exact Or.inl h'
+    · exact Or.inr (h'.mono e)
+  · unfold RotInv at *; rw [hl]; exact h
+
+theorem pres_setT {w : World} {t : Tgt}
+    (h : ∀ t0, getT w t.id = some t0 → t0.signaled = true → t.signaled = true) : Pres w (setT w t) := by
+  refine ⟨Ext.setT h, fun hf => ⟨hf.1, fun x hx => ?_, fun x hx => ?_⟩, fun _ h => Or.inl h, fun c h => Or.inl ⟨c, h, rfl⟩,
+    fun r h => Or.inl ⟨r, h, rfl⟩, id⟩
+  · rcases mem_map_upd Tgt.id hx with h' | ⟨rfl, y, hy, hk⟩
+    · exact hf.2.1 x h'
+    · have := hf.2.1 y hy
+      show x.id < w.next
+      rw [← hk]; exact this
+  · -- identifiers stay unique
+    have hx' : x ∈ w.tgts.map fun y => if y.id = t.id then t else y := hx
+    simp only [List.mem_map] at hx'
+    obtain ⟨y, hy, rfl⟩ := hx'
+    have hyid : (if y.id = t.id then t else y).id = y.id := by
+      by_cases hk : y.id = t.id
+      · rw [if_pos hk]; exact hk.symm
+      · rw [if_neg hk]
+    rw [getT_setT, hyid, hf.2.2 y hy]
+    rfl
+
+theorem pres_setL {w : World} {l : Lb}
+    (h : ∀ l0, getL w l.id = some l0 → l.targets = l0.targets) (hh : RotInv w → ∀ tid ∈ l.healthy, tid ∈ l.targets) :
+    Pres w (setL w l) := by
+  refine ⟨Ext.setL h, fun hf => ⟨fun x hx => ?_, hf.2.1, hf.2.2⟩, fun _ h => Or.inl h, fun c h => Or.inl ⟨c, h, rfl⟩,
+    fun r h => Or.inl ⟨r, h, rfl⟩, fun hr => ?_⟩
+  · rcases mem_map_upd Lb.id hx with h' | ⟨rfl, y, hy, hk⟩
+    · exact hf.1 x h'
+    · have := hf.1 y hy
+      show x.id < w.next
+      rw [← hk]; exact this
+  · intro x hx
+    rcases mem_map_upd Lb.id hx with h' | ⟨rfl, _⟩
+    · exact hr x h'
+    · exact hh hr
+
+theorem pres_emit (w : World) (e : String) : Pres w (emit w e) := Pres.of_eq rfl rfl rfl rfl rfl
+
+theorem pres_setR {w : World} {r : Req}
+    (h : (∃ r0 ∈ w.reqs, r0.phase = r.phase) ∨ PhiRp w r.phase) : Pres w (setR w r) := by
+  refine Pres.lists rfl rfl (fun _ h => Or.inl h) (fun c h => Or.inl ⟨c, h, rfl⟩) (fun x hx => ?_)
+  rcases mem_map_upd Req.id hx with h' | ⟨rfl, _⟩
+  · exact Or.inl ⟨x, h', rfl⟩
+  · exact h
+
+theorem pres_setC {w : World} {c : Cmd}
+    (h : (∃ c0 ∈ w.cmds, c0.phase = c.phase) ∨ PhiCp w c.phase) : Pres w (setC w c) := by
+  refine Pres.lists rfl rfl (fun _ h => Or.inl h) (fun x hx => ?_) (fun r h => Or.inl ⟨r, h, rfl⟩)
+  rcases mem_map_upd Cmd.id hx with h' | ⟨rfl, _⟩
+  · exact Or.inl ⟨x, h', rfl⟩
+  · exact h
+
+theorem pres_setO {w : World} {o : Obj} (h : o ∈ w.objs ∨ PhiO w o) : Pres w (setO w o) := by
+  refine Pres.lists rfl rfl (fun x hx => ?_) (fun c h => Or.inl ⟨c, h, rfl⟩) (fun r h => Or.inl ⟨r, h, rfl⟩)
+  rcases mem_map_upd Obj.id hx with h' | ⟨rfl, _⟩
+  · exact Or.inl h'
+  · exact h
+
+theorem pres_setG (w : World) (g : Gate) : Pres w (setG w g) := Pres.of_eq rfl rfl rfl rfl rfl
+
+theorem getO_mem {w : World} {i : Nat} {o : Obj} (h : getO w i = some o) : o ∈ w.objs :=
+  List.mem_of_find?_eq_some h
+theorem getR_mem {w : World} {i : Nat} {r : Req} (h : getR w i = some r) : r ∈ w.reqs :=
+  List.mem_of_find?_eq_some h
+theorem getL_mem {w : World} {i : Nat} {l : Lb} (h : getL w i = some l) : l ∈ w.lbs :=
+  List.mem_of_find?_eq_some h
+
+/-! ### probes -/
+
+theorem probeUpdate_frame (t : Tgt) (s : Bool) :
+    (probeUpdate t s).1.id = t.id ∧ (probeUpdate t s).1.signaled = t.signaled := by
+  unfold probeUpdate
+  cases s <;> cases t.st <;> simp
+
+theorem pres_refresh (w : World) (lb : Nat) : Pres w (refresh w lb) := by
+  unfold refresh
+  cases hl : getL w lb with
+  | none => exact Pres.refl w
+  | some l =>
+    simp only
+    refine pres_setL (fun l0 h0 => ?_) (fun _ tid hm => (List.mem_filter.mp hm).1)
+    have hid := getL_id hl
+    simp only at h0
+    rw [hid, hl] at h0
+    cases h0; rfl
+
+theorem pres_probeNotify (w : World) (tid : Nat) (became : Bool) : Pres w (probeNotify w tid became) := by
+  unfold probeNotify
+  cases ht : getT w tid with
+  | none => exact Pres.refl w
+  | some t =>
+    simp only
+    have p1 := pres_refresh w t.lb
+    cases ht1 : getT (refresh w t.lb) tid with
+    | none => exact p1
+    | some t1 =>
+      simp only
+      refine p1.trans (pres_setT (fun t0 h0 hs => ?_))
+      have hid := getT_id ht1
+      simp only at h0
+      rw [hid, ht1] at h0
+      cases h0
+      simp [hs]
+
+theorem pres_probeComplete (w : World) (tid : Nat) (success : Bool) : Pres w (probeComplete w tid success) := by
+  unfold probeComplete
+  cases ht : getT w tid with
+  | none => exact Pres.refl w
+  | some t =>
+    simp only
+    have hf := probeUpdate_frame t success
+    have hid := getT_id ht
+    have hset : ∀ lp, Pres w (setT w { (probeUpdate t success).1 with loop := lp }) := by
+      intro lp
+      refine pres_setT (fun t0 h0 hs => ?_)
+      simp only [hf.1, hid, ht] at h0
+      cases h0
+      simp only [hf.2]; exact hs
+    split
+    · exact hset _
+    · split
+      · exact (hset _).trans (pres_probeNotify _ _ _)
+      · exact hset _
+
+theorem pres_probeFire (w : World) (tid : Nat) : Pres w (probeFire w tid) := by
+  unfold probeFire
+  cases ht : getT w tid with
+  | none => exact Pres.refl w
+  | some t =>
+    simp only
+    have pe := pres_emit w s!"probe {showB t.name}"
+    split
+    · exact pe.trans (pres_probeComplete _ _ _)
+    · exact pe.trans (pres_probeComplete _ _ _)
+    · exact pe.trans (pres_probeComplete _ _ _)
+    · refine pe.trans (pres_setT (fun t0 h0 hs => ?_))
+      have hid := getT_id ht
+      have : getT (emit w s!"probe {showB t.name}") t.id = some t := by rw [hid]; exact ht
+      simp only at h0
+      rw [this] at h0; cases h0; exact hs
+
+theorem pres_stopChecks (w : World) (tid : Nat) : Pres w (stopChecks w tid) := by
+  unfold stopChecks
+  cases ht : getT w tid with
+  | none => exact Pres.refl w
+  | some t =>
+    refine pres_setT (fun t0 h0 hs => ?_)
+    have hid := getT_id ht
+    simp only at h0
+    rw [hid, ht] at h0; cases h0; exact hs
+
+theorem pres_foldl {α : Type} (f : World → α → World) (hf : ∀ w a, Pres w (f w a)) (l : List α) (w : World) :
+    Pres w (l.foldl f w) := by
+  induction l generalizing w with
+  | nil => exact Pres.refl w
+  | cons x xs ih => exact (hf w x).trans (ih _)
+
+theorem pres_disposeLb (w : World) (lb : Nat) : Pres w (disposeLb w lb) := by
+  unfold disposeLb
+  cases getL w lb with
+  | none => exact Pres.refl w
+  | some l => exact pres_foldl _ pres_stopChecks _ _
+
+/-! ### requests -/
+
+theorem pres_finishReq (w : World) (r : Req) (status : Nat) (by_ : String) : Pres w (finishReq w r status by_) := by
+  unfold finishReq
+  exact (pres_setR (r := { r with phase := .done, parkedAt := none }) (Or.inr trivial)).trans (pres_emit _ _)
+
+theorem pres_reqAt {w : World} {r : Req} {ph : RPhase} (label : String)
+    (h : (∃ r0 ∈ w.reqs, r0.phase = ph) ∨ PhiRp w ph) : Pres w (reqAt w r ph label) := by
+  unfold reqAt
+  split
+  · exact (pres_setR (r := { r with phase := ph, parkedAt := some label, parkSeq := w.next }) h).trans
+      (Pres.of_eq rfl rfl rfl rfl rfl (Nat.le_succ _))
+  · exact pres_setR (r := { r with phase := ph }) h
+
+/-- a target whose `inflight` list alone changes -/
+theorem pres_setT_inflight {w : World} {t : Tgt} {i : Nat} (ht : getT w i = some t) (fl : List Nat) :
+    Pres w (setT w { t with inflight := fl }) := by
+  refine pres_setT (fun t0 h0 hs => ?_)
+  have hid := getT_id ht
+  simp only at h0
+  rw [hid, ht] at h0; cases h0; exact hs
+
+theorem pres_claim (w : World) (lb rid : Nat) : Pres w (claim w lb rid).1 := by
+  unfold claim
+  cases hl : getL w lb with
+  | none => exact Pres.refl w
+  | some l =>
+    simp only
+    split
+    · exact Pres.refl w
+    · have hid := getL_id hl
+      have p1 : Pres w (setL w { l with idx := (l.idx + 1) % l.healthy.length }) := by
+        refine pres_setL (fun l0 h0 => ?_) ?_
+        · simp only at h0; rw [hid, hl] at h0; cases h0; rfl
+        · intro hr tid hm; exact hr l (getL_mem hl) tid hm
+      cases hi : (l.healthy[(l.idx + 1) % l.healthy.length]?).bind
+            (getT (setL w { l with idx := (l.idx + 1) % l.healthy.length })) with
+        | none => simp only; exact p1
+        | some t =>
+          simp only
+          split
+          · exact p1
+          · refine p1.trans ?_
+            cases hx : l.healthy[(l.idx + 1) % l.healthy.length]? with
+            | none => rw [hx] at hi; cases hi
+            | some x =>
+              rw [hx] at hi
+              simp only [Option.bind_some] at hi
+              exact pres_setT_inflight hi _
+
+theorem claim_tgtSig {w w1 : World} {lb rid tid : Nat} (h : claim w lb rid = (w1, some tid))
+    (hr : RotInv w) (hok : lbOK w lb) : tgtSig w1 tid := by
+  obtain ⟨l, _, hl, hm, _⟩ := claim_some h
+  obtain ⟨l', hl', hs⟩ := hok
+  rw [hl] at hl'; cases hl'
+  have hsig : tgtSig w tid := hs tid (hr l (getL_mem hl) tid hm)
+  have p := pres_claim w lb rid
+  rw [h] at p
+  exact hsig.mono p.ext
+
+theorem pres_reqStep {w w' : World} {r : Req} (j : J w) (hr : r ∈ w.reqs) (h : reqStep w r = some w') : Pres w w' := by
+  unfold reqStep at h
+  split at h
+  · cases h
+  · split at h
+    · -- start
+      cases h; exact pres_reqAt _ (Or.inr trivial)
+    · cases h; exact pres_finishReq _ _ _ _
+    · -- routed (some oid)
+      split at h
+      · cases h
+      · split at h
+        · cases h; exact pres_finishReq _ _ _ _
+        · split at h
+          · cases h; exact pres_reqAt _ (Or.inr trivial)
+          · cases h; exact pres_finishReq _ _ _ _
+          · cases h; exact pres_setR (Or.inr trivial)
+    · -- held
+      split at h
+      · cases h
+      · split at h
+        · split at h
+          · cases h; exact pres_finishReq _ _ _ _
+          · cases h; exact pres_reqAt _ (Or.inr trivial)
+        · split at h
+          · cases h; exact pres_finishReq _ _ _ _
+          · cases h
+    · -- gated
+      rename_i oid _hph
+      split at h
+      · cases h
+      · rename_i o ho
+        have hphi := j.objs o (getO_mem ho)
+        have key : ∀ (u : Bool) (w'' : World),
+            (match (if u then o.rollout else o.active) with
+              | none => none
+              | some lb => some (reqAt w r (.picked oid lb) "req.picked")) = some w'' → Pres w w'' := by
+          intro u w'' hu
+          cases hsel : (if u then o.rollout else o.active) with
+          | none => rw [hsel] at hu; cases hu
+          | some lb =>
+            rw [hsel] at hu
+            cases hu
+            refine pres_reqAt _ (Or.inr ?_)
+            apply hphi lb
+            unfold refs
+            simp only [List.mem_append, Option.mem_toList]
+            cases u
+            · exact Or.inl (by simpa using hsel)
+            · exact Or.inr (by simpa using hsel)
+        exact key _ _ h
+    · -- picked
+      rename_i oid lb hph
+      have hphi : lbOK w lb := by
+        have := j.reqs r hr
+        unfold PhiR at this
+        rw [hph] at this
+        exact this
+      split at h
+      · rename_i w1 hc
+        cases h
+        have p := pres_claim w lb r.id
+        rw [hc] at p
+        exact p.trans (pres_finishReq _ _ _ _)
+      · rename_i w1 tid hc
+        have p := pres_claim w lb r.id
+        rw [hc] at p
+        have hsig := claim_tgtSig hc j.rot hphi
+        split at h
+        · cases h
+        · rename_i t ht
+          have p2 : Pres w1 (emit (setR w1 { r with phase := .inflight tid }) s!"got {showB t.name} r{r.id}") :=
+            (pres_setR (r := { r with phase := .inflight tid }) (Or.inr hsig)).trans (pres_emit _ _)
+          split at h
+          · cases h; exact p.trans p2
+          · cases h
+            refine p.trans (p2.trans ((pres_setT_inflight (w := emit (setR w1 { r with phase := .inflight tid }) s!"got {showB t.name} r{r.id}") (i := tid) ht _).trans (pres_finishReq _ _ _ _)))
+    · cases h
+    · cases h
+
+theorem pres_respond (w : World) (rid status : Nat) : Pres w (respond w rid status) := by
+  unfold respond
+  split
+  · exact Pres.refl w
+  · split
+    · split
+      · exact Pres.refl w
+      · rename_i t ht
+        exact (pres_setT_inflight ht _).trans (pres_finishReq _ _ _ _)
+    · exact Pres.refl w
+
+theorem pres_cancelByDrain (w : World) (rid : Nat) : Pres w (cancelByDrain w rid) := by
+  unfold cancelByDrain
+  split
+  · exact Pres.refl w
+  · split
+    · split
+      · exact Pres.refl w
+      · rename_i t ht
+        exact (pres_setT_inflight ht _).trans (pres_finishReq _ _ _ _)
+    · exact Pres.refl w
+
+/-! ### drains -/
+
+theorem pres_setT_st {w : World} {t : Tgt} {i : Nat} (ht : getT w i = some t) (st : TState) :
+    Pres w (setT w { t with st := st }) := by
+  refine pres_setT (fun t0 h0 hs => ?_)
+  have hid := getT_id ht
+  simp only at h0
+  rw [hid, ht] at h0; cases h0; exact hs
+
+theorem pres_drainStart (w : World) (tid timeout : Nat) : Pres w (drainStart w tid timeout).1 := by
+  unfold drainStart
+  cases ht : getT w tid with
+  | none => exact Pres.refl w
+  | some t =>
+    simp only
+    split <;> exact pres_setT_st ht _
+
+theorem pres_drainFinish (w : World) (d : Drain) : Pres w (drainFinish w d) := by
+  unfold drainFinish
+  have p1 : Pres w (d.snapshot.foldl cancelByDrain w) := pres_foldl _ pres_cancelByDrain _ _
+  simp only
+  cases ht : getT (d.snapshot.foldl cancelByDrain w) d.tgt with
+  | none => exact p1
+  | some t => exact p1.trans (pres_setT_st ht _)
+
+theorem pres_drainStep {w w' : World} {d d' : Drain} (h : drainStep w d = some (w', d')) : Pres w w' := by
+  unfold drainStep at h
+  split at h
+  · split at h
+    · split at h
+      · cases h; exact Pres.of_eq rfl rfl rfl rfl rfl (Nat.le_succ _)
+      · cases h; exact pres_drainFinish _ _
+    · cases h
+  · cases h
+
+theorem pres_startDrains_aux (timeout : Nat) (tids : List Nat) (acc : World × List Drain) :
+    Pres acc.1 (tids.foldl (fun (acc : World × List Drain) tid =>
+      match drainStart acc.1 tid timeout with
+      | (w', some d) => (w', acc.2 ++ [d])
+      | (w', none) => (w', acc.2)) acc).1 := by
+  induction tids generalizing acc with
+  | nil => exact Pres.refl _
+  | cons x xs ih =>
+    simp only [List.foldl_cons]
+    refine Pres.trans ?_ (ih _)
+    have p := pres_drainStart acc.1 x timeout
+    cases hd : drainStart acc.1 x timeout with
+    | mk w' od =>
+      rw [hd] at p
+      cases od <;> exact p
+
+theorem pres_startDrains (w : World) (lbIds : List Nat) (timeout : Nat) : Pres w (startDrains w lbIds timeout).1 := by
+  unfold startDrains
+  exact pres_startDrains_aux timeout _ (w, [])
+
+/-! ### commands -/
+
+theorem pres_park {w : World} {c : Cmd} {ph : CPhase} (label : String)
+    (h : (∃ c0 ∈ w.cmds, c0.phase = ph) ∨ PhiCp w ph) : Pres w (park w c label ph) := by
+  unfold park
+  split
+  · exact (pres_setC (c := { c with phase := ph, parkedAt := some label, parkSeq := w.next }) h).trans
+      (Pres.of_eq rfl rfl rfl rfl rfl (Nat.le_succ _))
+  · exact pres_setC (c := { c with phase := ph }) h
+
+theorem pres_finishCmd (w : World) (c : Cmd) (res : String) : Pres w (finishCmd w c res) := by
+  unfold finishCmd
+  exact (pres_setC (c := { c with phase := .returned, parkedAt := none }) (Or.inr trivial)).trans (pres_emit _ _)
+
+theorem lbOK_of_wait {w : World} {lb : Nat} (he : lbExists w lb)
+    (h : ((lbTargets w lb).filterMap (getT w)).all (·.signaled) = true) : lbOK w lb := by
+  obtain ⟨l, hl, ht⟩ := he
+  refine ⟨l, hl, fun tid hm => ?_⟩
+  have hx := ht tid hm
+  cases hg : getT w tid with
+  | none => rw [hg] at hx; cases hx
+  | some t =>
+    refine ⟨t, rfl, ?_⟩
+    have hmem : t ∈ (lbTargets w lb).filterMap (getT w) := by
+      simp only [List.mem_filterMap]
+      refine ⟨tid, ?_, hg⟩
+      unfold lbTargets; rw [hl]; exact hm
+    exact (List.all_eq_true.mp h) t hmem
+
+theorem getC_phase_of_mem {w : World} {c : Cmd} (j : J w) (hc : c ∈ w.cmds) : PhiCp w c.phase := j.cmds c hc
+
+theorem pres_cmdStep {w w' : World} {c : Cmd} (j : J w) (hc : c ∈ w.cmds) (h : cmdStep w c = some w') : Pres w w' := by
+  have hphi := j.cmds c hc
+  unfold PhiC at hphi
+  unfold cmdStep at h
+  split at h
+  · cases h
+  · split at h
+    · -- waiting
+      rename_i oid lb deadline hph
+      rw [hph] at hphi
+      simp only at h
+      split at h
+      · rename_i hall
+        cases h
+        exact pres_park _ (Or.inr (lbOK_of_wait hphi hall))
+      · split at h
+        · cases h; exact (pres_disposeLb _ _).trans (pres_finishCmd _ _ _)
+        · cases h
+    · -- healthy
+      rename_i oid lb hph
+      rw [hph] at hphi
+      split at h
+      · rename_i o slot ts ho hk
+        cases h
+        have hO := j.objs o (getO_mem ho)
+        have hO' : PhiO w (if slot = true then { o with rollout := some lb } else { o with active := some lb }) := by
+          intro x hx
+          unfold refs at hx
+          by_cases hs : slot = true
+          · simp only [hs, if_true, List.mem_append, Option.mem_toList] at hx
+            rcases hx with hx | hx
+            · exact hO x (by unfold refs; simp only [List.mem_append, Option.mem_toList]; exact Or.inl hx)
+            · cases hx; exact hphi
+          · simp only [hs, List.mem_append, Option.mem_toList] at hx
+            rcases hx with hx | hx
+            · cases hx; exact hphi
+            · exact hO x (by unfold refs; simp only [List.mem_append, Option.mem_toList]; exact Or.inr hx)
+        have p1 := pres_setO (w := w) (Or.inr hO')
+        exact p1.trans (pres_park _ (Or.inr (lbOK.mono hphi p1.ext)))
+      · cases h
+    · -- lbset
+      rename_i oid lb replaced hph
+      split at h
+      · cases h
+      · split at h
+        · cases h; exact (pres_disposeLb _ _).trans (pres_finishCmd _ _ _)
+        · cases h
+          rename_i o _ _
+          have p1 : Pres w { w with table := installTable w.table o.name oid } := Pres.of_eq rfl rfl rfl rfl rfl
+          exact p1.trans (pres_park (ph := .installed _) _ (Or.inr trivial))
+    · -- installed
+      split at h
+      · cases h; exact pres_park _ (Or.inr trivial)
+      · cases h
+        exact (pres_startDrains _ _ _).trans (pres_setC (Or.inr trivial))
+    · -- gateSet
+      split at h
+      · cases h
+      · cases h
+        exact (pres_startDrains _ _ _).trans (pres_setC (Or.inr trivial))
+    · -- draining
+      rename_i lbs ds final hph
+      split at h
+      · rename_i w1 d1 hf
+        cases h
+        obtain ⟨d, _, hd⟩ := List.exists_of_findSome?_eq_some hf
+        have hds : drainStep w d = some (w1, d1) := by
+          cases hx : drainStep w d with
+          | none => rw [hx] at hd; cases hd
+          | some p =>
+            rw [hx] at hd
+            simp only [Option.map_some, Option.some.injEq] at hd
+            rw [← hd]
+        exact (pres_drainStep hds).trans (pres_setC (Or.inr trivial))
+      · split at h
+        · split at h
+          · cases h
+            exact (pres_foldl _ pres_disposeLb _ _).trans (pres_park _ (Or.inr trivial))
+          · cases h; exact pres_finishCmd _ _ _
+        · cases h
+    · cases h; exact pres_finishCmd _ _ _
+    · cases h
+
+/-! ### probe loops and the scheduler -/
+
+/-- a target of the list written back with other fields changed -/
+theorem pres_setT_of_mem {w : World} {t t' : Tgt} (j : J w) (hm : t ∈ w.tgts) (hid : t'.id = t.id)
+    (hs : t.signaled = true → t'.signaled = true) : Pres w (setT w t') := by
+  refine pres_setT (fun t0 h0 h1 => ?_)
+  rw [hid, j.fresh.2.2 t hm] at h0
+  cases h0; exact hs h1
+
+theorem pres_tickStep {w w' : World} {t : Tgt} (j : J w) (hm : t ∈ w.tgts) (h : tickStep w t = some w') : Pres w w' := by
+  unfold tickStep at h
+  split at h
+  · cases h; exact pres_setT_of_mem j hm rfl id
+  · cases h
+
+theorem pres_tgtStep {w w' : World} {t : Tgt} (j : J w) (hm : t ∈ w.tgts) (h : tgtStep w t = some w') : Pres w w' := by
+  unfold tgtStep at h
+  split at h
+  · split at h
+    · cases h
+      exact (pres_setT_of_mem (t' := { t with tickBuf := false }) j hm rfl id).trans (pres_probeFire _ _)
+    · cases h
+  · split at h
+    · cases h; exact pres_setT_of_mem j hm rfl id
+    · split at h
+      · cases h; exact pres_probeComplete _ _ _
+      · cases h
+  · cases h
+
+theorem pres_settleOnce {w w' : World} (j : J w) (h : settleOnce w = some w') : Pres w w' := by
+  unfold settleOnce at h
+  cases h1 : w.tgts.findSome? (tickStep w) with
+  | some x =>
+    rw [h1] at h
+    simp only [Option.orElse_some] at h
+    cases h
+    obtain ⟨t, hm, ht⟩ := List.exists_of_findSome?_eq_some h1
+    exact pres_tickStep j hm ht
+  | none =>
+    rw [h1] at h
+    simp only [Option.orElse_none] at h
+    cases h2 : w.tgts.findSome? (tgtStep w) with
+    | some x =>
+      rw [h2] at h
+      simp only [Option.orElse_some] at h
+      cases h
+      obtain ⟨t, hm, ht⟩ := List.exists_of_findSome?_eq_some h2
+      exact pres_tgtStep j hm ht
+    | none =>
+      rw [h2] at h
+      simp only [Option.orElse_none] at h
+      cases h3 : w.cmds.findSome? (cmdStep w) with
+      | some x =>
+        rw [h3] at h
+        simp only [Option.orElse_some] at h
+        cases h
+        obtain ⟨c, hm, hc⟩ := List.exists_of_findSome?_eq_some h3
+        exact pres_cmdStep j hm hc
+      | none =>
+        rw [h3] at h
+        simp only [Option.orElse_none] at h
+        obtain ⟨r, hm, hr⟩ := List.exists_of_findSome?_eq_some h
+        exact pres_reqStep j hm hr
+
+theorem J_settle (n : Nat) (w : World) (j : J w) : J (settle n w) := by
+  induction n generalizing w with
+  | zero => exact j
+  | succ n ih =>
+    simp only [settle]
+    cases h : settleOnce w with
+    | none => exact j
+    | some w' => exact ih w' (j.step (pres_settleOnce j h))
+
+theorem J_now {w : World} (j : J w) (t : Nat) : J { w with now := t } :=
+  j.step (Pres.of_eq rfl rfl rfl rfl rfl)
+
+theorem J_advance (fuel : Nat) (w : World) (target : Nat) (j : J w) : J (advance fuel w target) := by
+  induction fuel generalizing w with
+  | zero => exact j
+  | succ n ih =>
+    simp only [advance]
+    split
+    · split
+      · exact ih _ (J_settle _ _ (J_now j _))
+      · split
+        · exact ih _ (J_settle _ _ j)
+        · exact J_settle _ _ (J_now j _)
+    · exact J_settle _ _ (J_now j _)
+
+/-! ### creating targets, load balancers, commands, requests, objects -/
+
+theorem find_none_of_lt {α : Type} (k : α → Nat) (l : List α) (n : Nat) (h : ∀ x ∈ l, k x < n) :
+    l.find? (fun x => k x = n) = none := by
+  rw [List.find?_eq_none]
+  intro x hx
+  have := h x hx
+  simp only [decide_eq_true_eq]
+  omega
+
+theorem pres_appendT (w : World) (t : Tgt) (hid : t.id = w.next) :
+    Pres w { w with tgts := w.tgts ++ [t], next := w.next + 1 } := by
+  refine ⟨(Ext.appendT w [t]).trans (Ext.of_eq rfl rfl), fun hf => ⟨?_, ?_, ?_⟩, fun _ h => Or.inl h,
+    fun c h => Or.inl ⟨c, h, rfl⟩, fun r h => Or.inl ⟨r, h, rfl⟩, id⟩
+  · intro l hl; exact Nat.lt_succ_of_lt (hf.1 l hl)
+  · intro x hx
+    simp only [List.mem_append, List.mem_singleton] at hx
+    rcases hx with hx | rfl
+    · exact Nat.lt_succ_of_lt (hf.2.1 x hx)
+    · show x.id < w.next + 1
+      omega
+  · intro x hx
+    simp only [List.mem_append, List.mem_singleton] at hx
+    unfold getT
+    simp only
+    rcases hx with hx | rfl
+    · exact find_append_some _ _ _ _ (hf.2.2 x hx)
+    · rw [List.find?_append, hid, find_none_of_lt Tgt.id w.tgts w.next hf.2.1]
+      simp [hid]
+
+theorem pres_appendL (w : World) (nl : Lb) (hid : nl.id < w.next) (hh : nl.healthy = []) :
+    Pres w { w with lbs := w.lbs ++ [nl] } := by
+  refine ⟨Ext.appendL w [nl], fun hf => ⟨?_, hf.2.1, hf.2.2⟩, fun _ h => Or.inl h,
+    fun c h => Or.inl ⟨c, h, rfl⟩, fun r h => Or.inl ⟨r, h, rfl⟩, fun hr => ?_⟩
+  · intro l hl
+    simp only [List.mem_append, List.mem_singleton] at hl
+    rcases hl with hl | rfl
+    · exact hf.1 l hl
+    · exact hid
+  · intro l hl
+    simp only [List.mem_append, List.mem_singleton] at hl
+    rcases hl with hl | rfl
+    · exact hr l hl
+    · intro tid hm; rw [hh] at hm; cases hm
+
+theorem pres_appendC (w : World) (c : Cmd) (h : PhiCp w c.phase) : Pres w { w with cmds := w.cmds ++ [c] } := by
+  refine Pres.lists rfl rfl (fun _ h => Or.inl h) (fun x hx => ?_) (fun r h => Or.inl ⟨r, h, rfl⟩)
+  simp only [List.mem_append, List.mem_singleton] at hx
+  rcases hx with hx | rfl
+  · exact Or.inl ⟨x, hx, rfl⟩
+  · exact Or.inr h
+
+theorem pres_appendR (w : World) (r : Req) (h : PhiRp w r.phase) : Pres w { w with reqs := w.reqs ++ [r] } := by
+  refine Pres.lists rfl rfl (fun _ h => Or.inl h) (fun c h => Or.inl ⟨c, h, rfl⟩) (fun x hx => ?_)
+  simp only [List.mem_append, List.mem_singleton] at hx
+  rcases hx with hx | rfl
+  · exact Or.inl ⟨x, hx, rfl⟩
+  · exact Or.inr h
+
+theorem getT_isSome_mono {w w' : World} (e : Ext w w') {tid : Nat} (h : (getT w tid).isSome = true) :
+    (getT w' tid).isSome = true := by
+  cases hg : getT w tid with
+  | none => rw [hg] at h; cases h
+  | some t => obtain ⟨t', ht', _⟩ := e.1 tid t hg; rw [ht']; rfl
+
+theorem newTargets_aux (lbId : Nat) (interval hcTimeout : Nat) (names : List Bytes) (acc : World × List Nat)
+    (hacc : ∀ tid ∈ acc.2, (getT acc.1 tid).isSome = true) :
+    let r := names.foldl (fun (acc : World × List Nat) n =>
+      let w := acc.1
+      let t : Tgt := { id := w.next, name := n, lb := lbId, nextTick := w.now, tickBuf := true, interval := interval, hcTimeout := hcTimeout }
+      ({ w with tgts := w.tgts ++ [t], next := w.next + 1 }, acc.2 ++ [t.id])) acc
+    Pres acc.1 r.1 ∧ r.1.lbs = acc.1.lbs ∧ acc.1.next ≤ r.1.next ∧ (∀ tid ∈ r.2, (getT r.1 tid).isSome = true) := by
+  induction names generalizing acc with
+  | nil => exact ⟨Pres.refl _, rfl, Nat.le_refl _, hacc⟩
+  | cons n ns ih =>
+    simp only [List.foldl_cons]
+    have p := pres_appendT acc.1 { id := acc.1.next, name := n, lb := lbId, nextTick := acc.1.now, tickBuf := true, interval := interval, hcTimeout := hcTimeout } rfl
+    have h2 : ∀ tid ∈ acc.2 ++ [acc.1.next], (getT { acc.1 with tgts := acc.1.tgts ++ [{ id := acc.1.next, name := n, lb := lbId, nextTick := acc.1.now, tickBuf := true, interval := interval, hcTimeout := hcTimeout }], next := acc.1.next + 1 } tid).isSome = true := by
+      intro tid hm
+      simp only [List.mem_append, List.mem_singleton] at hm
+      rcases hm with hm | rfl
+      · exact getT_isSome_mono p.ext (hacc tid hm)
+      · unfold getT
+        simp only
+        rw [List.find?_append]
+        cases hf : acc.1.tgts.find? (fun x => x.id = acc.1.next) with
+        | some x => rfl
+        | none => simp
+    obtain ⟨q1, q2, q3, q4⟩ := ih (_, _) h2
+    exact ⟨p.trans q1, q2, Nat.le_trans (Nat.le_succ _) q3, q4⟩
+
+theorem newTargets_spec (w : World) (lbId : Nat) (names : List Bytes) (interval hcTimeout : Nat) :
+    Pres w (newTargets w lbId names interval hcTimeout).1 ∧ (newTargets w lbId names interval hcTimeout).1.lbs = w.lbs ∧
+    w.next ≤ (newTargets w lbId names interval hcTimeout).1.next ∧
+    (∀ tid ∈ (newTargets w lbId names interval hcTimeout).2, (getT (newTargets w lbId names interval hcTimeout).1 tid).isSome = true) := by
+  unfold newTargets
+  exact newTargets_aux lbId interval hcTimeout names (w, []) (fun _ h => by cases h)
+
+/-- the body of `startDeploy` once the service object is known -/
+def mkDeploy (cid : Nat) (svc : Bytes) (slot : Bool) (targets : List Bytes) (dt drt : Nat) (w : World) (oid : Nat) : World :=
+  let lbId := w.next
+  let w1 := { w with next := w.next + 1 }
+  let (w2, tids) := newTargets w1 lbId targets hcInterval hcTimeoutNs
+  let nl : Lb := { id := lbId, targets := tids }
+  let w3 := { w2 with lbs := w2.lbs ++ [nl] }
+  let c : Cmd := { id := cid, svc := svc, kind := CKind.deploy slot targets, drt := drt, phase := .waiting oid lbId (w.now + dt) }
+  { w3 with cmds := w3.cmds ++ [c] }
+
+theorem startDeploy_eq (w : World) (cid : Nat) (svc host : Bytes) (slot : Bool) (targets : List Bytes) (dt drt : Nat) :
+    startDeploy w cid svc host slot targets dt drt =
+      if slot then
+        match installedObj w svc with
+        | none => emit w s!"cmd c{cid} res=notFound"
+        | some o => mkDeploy cid svc slot targets dt drt w o.id
+      else
+        match installedObj w svc with
+        | some o =>
+          mkDeploy cid svc slot targets dt drt { w with objs := w.objs ++ [{ o with id := w.next, host := host }], next := w.next + 1 } w.next
+        | none =>
+          mkDeploy cid svc slot targets dt drt
+            { w with gates := w.gates ++ [{ id := w.next }],
+                     objs := w.objs ++ [{ id := w.next + 1, name := svc, host := host, gate := w.next }], next := w.next + 2 } (w.next + 1) := by
+  unfold startDeploy mkDeploy
+  rfl
+
+theorem pres_mkDeploy (cid : Nat) (svc : Bytes) (slot : Bool) (targets : List Bytes) (dt drt : Nat) (w : World) (oid : Nat)
+    (hf : Fresh w) : Pres w (mkDeploy cid svc slot targets dt drt w oid) := by
+  unfold mkDeploy
+  simp only
+  have p1 : Pres w { w with next := w.next + 1 } := Pres.of_eq rfl rfl rfl rfl rfl (Nat.le_succ _)
+  obtain ⟨q1, q2, q3, q4⟩ := newTargets_spec { w with next := w.next + 1 } w.next targets hcInterval hcTimeoutNs
+  cases hnt : newTargets { w with next := w.next + 1 } w.next targets hcInterval hcTimeoutNs with
+  | mk w2 tids =>
+    rw [hnt] at q1 q2 q3 q4
+    simp only at q1 q2 q3 q4 ⊢
+    have hlt : w.next < w2.next := Nat.lt_of_lt_of_le (Nat.lt_succ_self _) q3
+    have p3 : Pres w2 { w2 with lbs := w2.lbs ++ [{ id := w.next, targets := tids }] } := pres_appendL w2 _ hlt rfl
+    -- the new load balancer is found under its identifier, and all its targets exist
+    have hex : lbExists { w2 with lbs := w2.lbs ++ [{ id := w.next, targets := tids }] } w.next := by
+      refine ⟨{ id := w.next, targets := tids }, ?_, fun tid hm => q4 tid hm⟩
+      unfold getL
+      simp only
+      rw [List.find?_append, q2]
+      have : w.lbs.find? (fun x => x.id = w.next) = none := find_none_of_lt Lb.id w.lbs w.next hf.1
+      show ((List.find? (fun x => decide (x.id = w.next)) w.lbs).or _) = _
+      rw [this]
+      simp
+    exact p1.trans (q1.trans (p3.trans (pres_appendC _ _ hex)))
+
+theorem pres_appendO (w : World) (o : Obj) (k : Nat) (h : PhiO w o) :
+    Pres w { w with objs := w.objs ++ [o], next := w.next + k } := by
+  refine Pres.lists rfl rfl (fun x hx => ?_) (fun c h => Or.inl ⟨c, h, rfl⟩) (fun r h => Or.inl ⟨r, h, rfl⟩) (Nat.le_add_right _ _)
+  simp only [List.mem_append, List.mem_singleton] at hx
+  rcases hx with hx | rfl
+  · exact Or.inl hx
+  · exact Or.inr h
+
+theorem installedObj_mem {w : World} {svc : Bytes} {o : Obj} (h : installedObj w svc = some o) : o ∈ w.objs := by
+  unfold installedObj at h
+  cases hf : w.table.find? (fun p => p.1 = svc) with
+  | none => rw [hf] at h; cases h
+  | some p => rw [hf] at h; exact getO_mem h
+
+theorem J_startDeploy (w : World) (cid : Nat) (svc host : Bytes) (slot : Bool) (targets : List Bytes) (dt drt : Nat)
+    (j : J w) : J (startDeploy w cid svc host slot targets dt drt) := by
+  rw [startDeploy_eq]
+  split
+  · split
+    · exact j.step (pres_emit _ _)
+    · exact j.step (pres_mkDeploy _ _ _ _ _ _ _ _ j.fresh)
+  · split
+    · rename_i o ho
+      have hO : PhiO w { o with id := w.next, host := host } := j.objs o (installedObj_mem ho)
+      have j1 := j.step (pres_appendO w { o with id := w.next, host := host } 1 hO)
+      exact j1.step (pres_mkDeploy _ _ _ _ _ _ _ _ j1.fresh)
+    · have hO : PhiO w { id := w.next + 1, name := svc, host := host, gate := w.next } := by
+        intro lb hlb; simp [refs] at hlb
+      have j0 : J { w with gates := w.gates ++ [{ id := w.next }] } := j.step (Pres.of_eq rfl rfl rfl rfl rfl)
+      have j1 := j0.step (pres_appendO _ { id := w.next + 1, name := svc, host := host, gate := w.next } 2 (hO.mono (Ext.of_eq rfl rfl)))
+      exact j1.step (pres_mkDeploy _ _ _ _ _ _ _ _ j1.fresh)
+
+/-! ### schedule lines -/
+
+theorem foldl_pick_mem (l : List Cmd) (init : Option Cmd) (x : Cmd)
+    (h : l.foldl (fun (acc : Option Cmd) c => match acc with
+        | none => some c
+        | some a => if c.parkSeq < a.parkSeq then some c else some a) init = some x) :
+    x ∈ l ∨ init = some x := by
+  induction l generalizing init with
+  | nil => exact Or.inr h
+  | cons y ys ih =>
+    simp only [List.foldl_cons] at h
+    rcases ih _ h with h' | h'
+    · exact Or.inl (List.mem_cons_of_mem _ h')
+    · cases init with
+      | none => simp only [Option.some.injEq] at h'; exact Or.inl (h' ▸ List.mem_cons_self)
+      | some a =>
+        simp only at h'
+        split at h'
+        · simp only [Option.some.injEq] at h'; exact Or.inl (h' ▸ List.mem_cons_self)
+        · exact Or.inr h'
+
+theorem J_release (w : World) (label key0 : String) (j : J w) : J (release w label key0) := by
+  unfold release
+  simp only
+  split
+  · -- probe.updated
+    split
+    · rename_i t hfind
+      have hm : t ∈ w.tgts := List.mem_of_find?_eq_some hfind
+      split
+      · split
+        · exact j.step (pres_probeNotify _ _ _)
+        · exact j.step (pres_setT_of_mem j hm rfl id)
+      · exact j
+    · exact j
+  · split
+    · -- drain.deadline
+      split
+      · exact (j.step (pres_drainFinish _ _)).step (pres_setC (Or.inr trivial))
+      · exact j
+    · split
+      · -- req.*
+        split
+        · rename_i r hfind
+          have hm : r ∈ w.reqs := List.mem_of_find?_eq_some hfind
+          exact j.step (pres_setR (r := { r with parkedAt := none }) (Or.inl ⟨r, hm, rfl⟩))
+        · exact j
+      · -- command hooks
+        split
+        · rename_i c hpick
+          have hm := foldl_pick_mem _ none c hpick
+          rcases hm with hm | hm
+          · have hc : c ∈ w.cmds := (List.mem_filter.mp hm).1
+            exact j.step (pres_setC (c := { c with parkedAt := none }) (Or.inl ⟨c, hc, rfl⟩))
+          · cases hm
+        · exact j
+
+theorem J_withInstalled (w : World) (c : Nat) (svc : Bytes) (k : Obj → World) (j : J w)
+    (hk : ∀ o, o ∈ w.objs → J (k o)) : J (withInstalled w c svc k) := by
+  unfold withInstalled
+  split
+  · exact j.step (pres_emit _ _)
+  · rename_i o ho; exact hk o (installedObj_mem ho)
+
+theorem J_applyOp (w : World) (op : Op) (j : J w) : J (applyOp w op) := by
+  cases op with
+  | target n m =>
+    simp only [applyOp]
+    refine J_settle _ _ (j.step ?_)
+    unfold setScript; split <;> exact Pres.of_eq rfl rfl rfl rfl rfl
+  | hold n v =>
+    simp only [applyOp]
+    refine J_settle _ _ (j.step ?_)
+    unfold setScript; split <;> exact Pres.of_eq rfl rfl rfl rfl rfl
+  | arm l => simp only [applyOp]; exact J_settle _ _ (j.step (Pres.of_eq rfl rfl rfl rfl rfl))
+  | disarm l => simp only [applyOp]; exact J_settle _ _ (j.step (Pres.of_eq rfl rfl rfl rfl rfl))
+  | deploy c svc host rollout ts dt drt => simp only [applyOp]; exact J_settle _ _ (J_startDeploy _ _ _ _ _ _ _ _ j)
+  | pause c svc drt fa =>
+    simp only [applyOp]
+    refine J_settle _ _ (J_withInstalled _ _ _ _ j (fun o _ => ?_))
+    split
+    · exact j
+    · rename_i g _
+      have j1 := j.step (pres_setG w (gatePause g fa))
+      have j2 := j1.step (pres_appendC _ { id := c, svc := svc, kind := .pause fa, drt := drt, phase := .gateSet o.id } trivial)
+      exact j2.step (pres_park _ (Or.inr trivial))
+  | stop c svc drt msg =>
+    simp only [applyOp]
+    refine J_settle _ _ (J_withInstalled _ _ _ _ j (fun o _ => ?_))
+    split
+    · exact j
+    · rename_i g _
+      have j1 := j.step (pres_setG w (gateSet g .stopped msg))
+      have j2 := j1.step (pres_appendC _ { id := c, svc := svc, kind := .stop msg, drt := drt, phase := .gateSet o.id } trivial)
+      exact j2.step (pres_park _ (Or.inr trivial))
+  | resume c svc =>
+    simp only [applyOp]
+    refine J_settle _ _ (J_withInstalled _ _ _ _ j (fun o _ => ?_))
+    split
+    · exact j
+    · exact (j.step (pres_setG _ _)).step (pres_emit _ _)
+  | remove c svc =>
+    simp only [applyOp]
+    refine J_settle _ _ (J_withInstalled _ _ _ _ j (fun o _ => ?_))
+    have j1 := j.step (pres_foldl _ pres_disposeLb (o.active.toList ++ o.rollout.toList) w)
+    have j2 : J { (List.foldl disposeLb w (o.active.toList ++ o.rollout.toList)) with
+        table := (List.foldl disposeLb w (o.active.toList ++ o.rollout.toList)).table.filter (·.1 ≠ svc) } :=
+      j1.step (Pres.of_eq rfl rfl rfl rfl rfl)
+    exact j2.step (pres_emit _ _)
+  | rolloutSet c svc p allow =>
+    simp only [applyOp]
+    refine J_settle _ _ (J_withInstalled _ _ _ _ j (fun o ho => ?_))
+    split
+    · exact j.step (pres_emit _ _)
+    · have hO : PhiO w { o with split := some ⟨p, allow⟩ } := j.objs o ho
+      exact (j.step (pres_setO (Or.inr hO))).step (pres_emit _ _)
+  | rolloutStop c svc =>
+    simp only [applyOp]
+    refine J_settle _ _ (J_withInstalled _ _ _ _ j (fun o ho => ?_))
+    have hO : PhiO w { o with split := none } := j.objs o ho
+    exact (j.step (pres_setO (Or.inr hO))).step (pres_emit _ _)
+  | req r svc ck hc =>
+    simp only [applyOp]
+    exact J_settle _ _ (j.step (pres_appendR w { id := r, svc := svc, cookie := ck, hc := hc } trivial))
+  | release l k => simp only [applyOp]; exact J_settle _ _ (J_release _ _ _ j)
+  | respond r st => simp only [applyOp]; exact J_settle _ _ (j.step (pres_respond _ _ _))
+  | advance d => simp only [applyOp]; exact J_advance _ _ _ j
+
+theorem J_init : J ({} : World) :=
+  ⟨⟨fun _ h => (by cases h), fun _ h => (by cases h), fun _ h => (by cases h)⟩, fun _ h => (by cases h),
+   fun _ h => (by cases h), fun _ h => (by cases h), fun _ h => (by cases h)⟩
+
+/-- **The invariant holds after every schedule.** -/
+theorem J_runOps (ops : List Op) : J (runOps ops) := by
+  unfold runOps
+  suffices ∀ w, J w → J (ops.foldl applyOp w) from this _ J_init
+  induction ops with
+  | nil => intro w j; exact j
+  | cons op rest ih => intro w j; exact ih _ (J_applyOp w op j)
 
 end KamalProxy.Proxy
